@@ -69,6 +69,38 @@ func c18Pool(g *G) []c18Val {
 		}
 		add("mapping", hx(encMapping(ps)), "0")
 	}
+	// composites whose repeated parts are in no particular order (zig-zag dates, costs, keys): anything that sorts,
+	// deduplicates or caches on first use has something to change. Correctly signed, so that they verify.
+	{
+		id := g.newIdentity(7, 4, false, nil)
+		now := uint64(g.ts()) * 1000
+		lb := cat(id.bytes, append([]byte{0x01}, g.R.bytes(255)...), g.newSigner(7).pub)
+		lb = append(lb, 4)
+		for _, d := range []uint64{3000, 1000, 4000, 2000} {
+			lb = append(lb, cat(g.R.bytes(32), u32(uint32(g.R.next())), u64(now+d))...)
+		}
+		add("ls", hx(cat(lb, id.sg.sign(lb))), "0")
+		body := cat(id.bytes, u32(g.ts()), u16(600), u16(0), encMapping([][2][]byte{{[]byte("b"), []byte("2")}, {[]byte("a"), []byte("1")}}),
+			[]byte{2}, u16(4), u16(32), g.R.bytes(32), u16(0), u16(256), append([]byte{0x01}, g.R.bytes(255)...), []byte{3})
+		for _, d := range []uint32{300, 100, 200} {
+			body = append(body, cat(g.R.bytes(32), u32(uint32(g.R.next())), u32(g.ts()+d))...)
+		}
+		add("ls2", hx(cat(body, id.sg.sign(cat([]byte{3}, body)))), "0")
+		mb := cat(id.bytes, u32(g.ts()), u16(600), u16(0), encMapping([][2][]byte{{[]byte("z"), []byte("1")}, {[]byte("y"), []byte("2")}}), []byte{3})
+		for _, c := range []byte{9, 1, 5} {
+			mb = cat(mb, g.R.bytes(32), []byte{3}, u32(g.ts()+uint32(c)), []byte{c}, encMapping(nil))
+		}
+		add("meta", hx(cat(mb, id.sg.sign(cat([]byte{7}, mb)))), "0")
+	}
+	for _, v := range vals[len(vals)-3:] { // the three fixtures above must be accepted and verify
+		val, _, _ := c18Build(v.kind, unhx(v.hex), 0)
+		if val == nil {
+			panic("harness: ordered-parts fixture of kind " + v.kind + " is not accepted")
+		}
+		if has, ok := verifySucceeds(val); !has || !ok {
+			panic("harness: ordered-parts fixture of kind " + v.kind + " does not verify")
+		}
+	}
 	// signed composites and small structures from the STRUCT generators (run on a scratch collector)
 	tmp := &G{R: g.R, Tier: g.Tier}
 	genSignedStructs(tmp, g.n(12, 60))
